@@ -742,11 +742,12 @@ func wrap(ctx string, b block) (src string, pool bool) {
 	case "method":
 		fmt.Fprintf(&s, "def m29(n: Int): Int\n%s  %s\nend\nprintln(m29(2))\n", body, b.val)
 	case "top":
-		fmt.Fprintf(&s, "n := 2\n%s\nprintln(%s)\n", strings.Join(b.pre, "\n"), b.val)
+		// the value is bound first: a logical expression inside a call argument crashes the checker (C03's finding)
+		fmt.Fprintf(&s, "n := 2\n%s\nv29 := %s\nprintln(v29)\n", strings.Join(b.pre, "\n"), b.val)
 	case "closure":
 		fmt.Fprintf(&s, "c29 := |n: Int|: Int ->\n%s  %s\nend\nprintln(c29.(2))\n", body, b.val)
 	case "generator":
-		fmt.Fprintf(&s, "def *g29(n: Int): Int\n%s  yield %s\n  0\nend\nfor v29 in g29(2)\n  println(v29)\nend\n", body, b.val)
+		fmt.Fprintf(&s, "def *g29(n: Int): Int\n%s  v29 := %s\n  yield v29\n  0\nend\nfor v29 in g29(2)\n  println(v29)\nend\n", body, b.val)
 	case "async":
 		fmt.Fprintf(&s, "async def a29(n: Int): Int\n%s  %s\nend\nprintln(a29(2).await_sync)\n", body, b.val)
 		pool = true
@@ -755,7 +756,7 @@ func wrap(ctx string, b block) (src string, pool bool) {
 	case "setter":
 		fmt.Fprintf(&s, "class W29\n  attr v: Int\n  init\n    @v = 0\n  end\n  def w=(n: Int)\n  %s    @v = %s\n  end\nend\no29 := W29()\no29.w = 2\nprintln(o29.v)\n", strings.ReplaceAll(body, "\n", "\n  "), b.val)
 	case "class-body":
-		fmt.Fprintf(&s, "class W29\n  n := 2\n%s  println(%s)\nend\n", body, b.val)
+		fmt.Fprintf(&s, "class W29\n  n := 2\n%s  v29 := %s\n  println(v29)\nend\n", body, b.val)
 	}
 	return s.String(), pool
 }
